@@ -152,7 +152,7 @@ impl Property for C10 {
         vec!["one token per client object (re-using a token for a second session re-uses its keys; outside the statement)".into(), "max_clients is never lowered at run time in these cases".into()]
     }
     fn pbt(&self, tier: Tier) -> PbtCfg {
-        PbtCfg { cases: tier.pick(300_000, 10_000_000), max_len: tier.pick(600, 2000), shrink_ms: 120_000 }
+        PbtCfg { cases: tier.pick(300_000, 5_000_000), max_len: tier.pick(600, 2000), shrink_ms: 120_000 }
     }
     fn required_labels(&self) -> Vec<&'static str> {
         vec!["two_open", "same_id_two_pending", "same_addr_two_tokens", "full_refused", "timeout_disconnect", "client_disconnect", "server_disconnect", "replay", "limit_raised", "payload_ok"]
